@@ -254,3 +254,24 @@ Proof.
   assert (E : QArith_base.Qle_bool q q = true) by (apply QArith_base.Qle_bool_iff, QArith_base.Qle_refl).
   rewrite E. reflexivity.
 Qed.
+
+(* what the definitional score check on an end-of-pass refinement call establishes: the DOCUMENTED
+   sum-of-pairs score (model Msa/Score.v on the recorded scoring dictionary, gap weight of the call)
+   exists before and after the call, agrees within 2^-30 with the two values measured with the
+   implementation, and did not drop (beyond that tolerance) *)
+Theorem definitional_okb_spec (sonars : bool) (s : step) (before_int : imat) (tab : list ((num * num) * QArith_base.Q)) :
+  sp_scorer s = Some tab -> definitional_okb sonars s before_int = true ->
+  exists x y,
+    Score.sum_of_pairs (pair_scorer tab) sonars (QArith_base.Qmake (-1) 1) (sp_gw s) before_int = Some x /\
+    Score.sum_of_pairs (pair_scorer tab) sonars (QArith_base.Qmake (-1) 1) (sp_gw s) (sp_int s) = Some y /\
+    ScoreExec.closeb x (sp_before s) = true /\ ScoreExec.closeb y (sp_after s) = true /\
+    QArith_base.Qle (QArith_base.Qminus x (QArith_base.Qmake 1 1073741824)) y.
+Proof.
+  intros E H. unfold definitional_okb in H. rewrite E in H.
+  destruct (Score.sum_of_pairs (pair_scorer tab) sonars _ (sp_gw s) before_int) as [x|]; [|cbn in H; discriminate].
+  destruct (Score.sum_of_pairs (pair_scorer tab) sonars _ (sp_gw s) (sp_int s)) as [y|];
+    [|rewrite andb_false_r in H; discriminate].
+  apply andb_true_iff in H. destruct H as [H H3]. apply andb_true_iff in H. destruct H as [H1 H2].
+  exists x, y. cbn [ScoreExec.oclose] in H1, H2. repeat split; try assumption.
+  apply QArith_base.Qle_bool_iff. exact H3.
+Qed.
